@@ -94,12 +94,19 @@ int main(int argc, char **argv) {
     ser_api::Backend *b = bs[bi];
     for (auto &ti : b->types()) {
       size_t nval = th ? 400 : 40;
-      for (size_t k = 0; k < nval; ++k) {
+      // + large top-level containers (counts 255 .. 12288 around powers of two): 4096 always, others by rotation
+      const char d0 = ti.desc.empty() ? ' ' : ti.desc[0];
+      const bool top_container = d0 >= 'A' && d0 <= 'Z' && d0 != 'P' && d0 != 'C' && d0 != 'R';
+      size_t nbig = top_container ? (th ? 11 : 3) : 0;
+      for (size_t k = 0; k < nval + nbig; ++k) {
         int budget = k == 0 ? -5 : (k % 4 == 3 ? 3 : 2);    // k = 0: smallest values (mostly empty containers)
+        if (k >= nval) budget = th ? 100 + static_cast<int>(k - nval) : (k == nval ? 107 : 100 + static_cast<int>(rng.below(11)));
+        // the model inserts into associative containers one element at a time (quadratic): keep those at <= 1025
+        if (k >= nval && (ti.set_like || ti.has_unordered)) budget = 100 + (budget - 100) % 6;
         std::string val = b->gen(ti.desc, rng.next(), budget);
         if (val.empty()) continue;
         Case c;
-        c.kind = std::string(k == 0 ? "boundary " : "value ") + ti.desc;
+        c.kind = std::string(k == 0 ? "boundary " : k >= nval ? "large " : "value ") + ti.desc;
         std::string pre = std::string(b->cfg) + " " + ti.desc + " " + val;
         c.ops.push_back("enc " + pre);
         std::string tail;
@@ -107,7 +114,7 @@ int main(int argc, char **argv) {
         for (size_t i = 0; i < tn; ++i) tail.push_back(static_cast<char>(rng.chance(1, 3) ? 0 : rng.next()));
         c.ops.push_back("rt " + pre + " " + vh::hex(tail));
         // the same read into reused objects: a larger random value, a small one, the value itself
-        for (int d = 0; d < 3; ++d) {
+        for (int d = (k >= nval ? 1 : 0); d < 3; ++d) {
           std::string dest = d == 2 ? val : b->gen(ti.desc, rng.next(), d == 0 ? 3 : 1);
           if (!dest.empty()) c.ops.push_back("rtd " + pre + " " + dest + " " + vh::hex(tail));
         }
